@@ -63,6 +63,10 @@ def gen_cases(tier, seed):
         for scen in DEFERRED:
             for extra in ([0, 1] if tier == "quick" else [0, 1, 2, 3]):
                 cases.append({"kind": "deferred", "variant": variant, "scenario": scen, "extra": extra})
+    # a workspace whose default (r+) open fell back to read-only because another reader of this process holds the file
+    for variant in ["with-normal", "with-abort", "explicit", "helper-normal"]:
+        for extra in ([0, 1] if tier == "quick" else [0, 1, 2, 3]):
+            cases.append({"kind": "fallback", "variant": variant, "extra": extra})
     return cases
 
 
@@ -380,6 +384,91 @@ def run_deferred(case, rec):
         gc.collect()
 
 
+def run_fallback(case, rec):
+    """The file is held by another reader of the same process, so the default open of the workspace falls back to read-only.
+    Closing such a workspace - explicitly, by leaving the block, by an exception, through the helper - still releases the handle
+    and raises nothing, and later accesses raise the closed-file error."""
+    import tempfile
+
+    from geoh5py.objects import Points
+    from geoh5py.shared.exceptions import Geoh5FileClosedError
+    from geoh5py.shared.utils import fetch_active_workspace
+    from geoh5py.workspace import Workspace
+
+    variant = case["variant"]
+    rec.see("variant:fallback:" + variant)
+    d = tempfile.mkdtemp(prefix="gvm_c11f_")
+    path = os.path.join(d, f"f{os.getpid()}.geoh5")
+    holder = ws = None
+    try:
+        with Workspace.create(path) as w0:
+            for k in range(1 + case["extra"]):
+                p = Points.create(w0, vertices=np.arange(9.0).reshape(3, 3) + k, name=f"p{k}")
+                p.add_data({"d": {"values": np.arange(3.0) + k}})
+        p = None
+        holder = h5py.File(path, "r")
+        baseline = open_objects()
+        held = []
+        err = None
+        try:
+            if variant in ("with-normal", "with-abort"):
+                with Workspace(path) as ws:
+                    rec.see("fallback-mode:" + ws.geoh5.mode)
+                    held = [ws.get_entity("p0")[0]]
+                    _ = held[0].vertices
+                    if variant == "with-abort":
+                        rec.see("aborts")
+                        raise Abort()
+            elif variant == "explicit":
+                ws = Workspace(path)
+                rec.see("fallback-mode:" + ws.geoh5.mode)
+                held = [ws.get_entity("p0")[0]]
+                _ = held[0].vertices
+                ws.close()
+            else:
+                ws = Workspace(path)
+                rec.see("fallback-mode:" + ws.geoh5.mode)
+                ws.close()
+                with fetch_active_workspace(ws) as w:
+                    held = [w.get_entity("p0")[0]]
+        except Abort:
+            pass
+        except Exception as exc:  # noqa: BLE001
+            from ..core import exc_origin
+
+            if not exc_origin(exc)[0]:
+                raise
+            err = exc
+        rec.check("C11.close-raises", err is None, op="fallback:" + variant, cls="Workspace", attr=type(err).__name__ if err else "", detail=f"closing a workspace whose open fell back to read-only raised {type(err).__name__}: {str(err)[:160]}")
+        rec.check("C11.not-closed", ws is not None and not bool(ws._geoh5), op="fallback:" + variant, cls="Workspace", attr="", detail="the workspace still holds an open handle after the close")  # noqa: SLF001
+        gc.collect()
+        now = open_objects()
+        rec.check("C11.handle-leak", now == baseline, op="fallback:" + variant, cls="Workspace", attr="", detail=f"{now - baseline} HDF5 objects still open after the close (the other reader's handle excluded)")
+        for ent in held:
+            if ent is None:
+                continue
+            rec.evals["C11.after-close-access"] += 1
+            try:
+                ws.fetch_children(ent)
+                rec.fail("C11.stale-after-close", op="fallback:" + variant, cls=type(ent).__name__, attr="fetch_children", detail="fetch_children after the close returned instead of raising Geoh5FileClosedError")
+            except Geoh5FileClosedError:
+                pass
+            except Exception as exc:  # noqa: BLE001
+                rec.fail("C11.wrong-error", op="fallback:" + variant, cls=type(ent).__name__, attr="fetch_children", detail=f"raised {type(exc).__name__}: {exc}")
+        rec.nontrivial = True
+        rec.shape = ["fallback", variant, case["extra"]]
+        rec.sample = {"variant": "fallback:" + variant}
+    finally:
+        for h in (ws, holder):
+            try:
+                if h is not None:
+                    h.close()
+            except Exception:  # noqa: BLE001
+                pass
+        shutil.rmtree(d, ignore_errors=True)
+        gc.collect()
+
+
 def open_objects():
     return h5py.h5f.get_obj_count(h5py.h5f.OBJ_ALL, h5py.h5f.OBJ_ALL)
 
@@ -416,6 +505,8 @@ def run_case(case, rec):
         return run_concat(case, rec)
     if case["kind"] == "deferred":
         return run_deferred(case, rec)
+    if case["kind"] == "fallback":
+        return run_fallback(case, rec)
     rng = random.Random(case["hseed"])
     from ..core import seed_all
 
@@ -568,6 +659,7 @@ def judge(rec, e, ws, path, held, live, baseline, variant, state):
     finally:
         twin.close()
     writes_after_close(rec, [h for h in held if h[0] != e.model.root][:6], variant)
+    old_handles = [h for h in held if h[0] != e.model.root and e.model.nodes.get(h[0]) is not None and e.model.nodes[h[0]].kind in ("object", "group") and e.model.nodes[h[0]].dkind != "auto"][:1]
     del held
     # 5. re-opening restores full access to the same content
     try:
@@ -575,7 +667,25 @@ def judge(rec, e, ws, path, held, live, baseline, variant, state):
         again = snap.api_snapshot(ws)
         hist.diff_snapshots(rec, PROP, "C11.reopen-restores", reopened, again, variant)
         rec.evals["C11.reopen-restores"] += 1
+        # an entity obtained before the close is used again after the re-open: what is done through it counts as well
+        renamed = None
+        for u, ent in old_handles:
+            try:
+                ent.name = "renamed through a handle from before the close"
+                renamed = (u, ent.name)
+                rec.see("edits-through-handles-from-before-the-close")
+            except Exception as exc:  # noqa: BLE001
+                from ..core import exc_origin
+
+                if not exc_origin(exc)[0]:
+                    raise
+                rec.see("old-handle-edit-refused:" + type(exc).__name__)
+        old_handles = None
         ws.close()
+        if renamed is not None:
+            with Workspace(path, mode="r") as w3:
+                got = w3.get_entity(__import__("uuid").UUID(renamed[0]))[0]
+                rec.check("C11.completed-op-missing", got is not None and got.name == renamed[1], op=variant + ":old-handle-after-reopen", cls=type(got).__name__ if got is not None else "None", attr="name", detail=f"renamed to {renamed[1]!r} through an entity obtained before the close (workspace re-opened in between); a fresh reader sees {None if got is None else got.name!r}")
     except Exception as exc:  # noqa: BLE001
         from ..core import exc_origin
 
